@@ -23,12 +23,12 @@ namespace
 {
 
 // calibrated constants: worst ratios observed on the pristine tree over >= 1.2e7 cases per sub-check
-// (thorough tier, seeds 1-2): recompose 1.48, orthonormality 1.49, orders 1.27, computeRSMatrix 1.73
+// (thorough tier, seeds 1-2): recompose 1.48, orthonormality 1.49, orders 1.33, computeRSMatrix 1.81 (4.4e8-case run)
 const LD C_RECOMPOSE = 16;   // recomposition from Euler angles / from the returned rotation matrix
 const LD C_ORTH      = 16;   // orthonormality and determinant of the residual rotation
 const LD C_SAME      = 4;    // same factor through another entry point (relative, in eps)
 const LD C_ORDER     = 16;   // recomposition through Euler<T> for the 24 rotation orders
-const LD C_RS        = 16;   // computeRSMatrix, relative to the row length, in eps
+const LD C_RS        = 24;   // computeRSMatrix, relative to the row length, in eps
 
 template <class T> LD epsT () { return (LD) std::numeric_limits<T>::epsilon (); }
 template <class T> LD skip_kappa () { return ldexpl (1.0L, -12) / epsT<T> (); }
